@@ -27,12 +27,13 @@ RULE = ("case = (method class, constraint set, speculative, split, first request
 ASSUMPTIONS = ["points of the pool are identical or separated by much more than the plug-in's allclose tolerance", "the scripted algorithm calls the callables the way SciPy does (1-D points; (V,S) batches for vectorized DE)"]
 EXHAUSTIVE = {"quick": True, "thorough": True}
 BOUNDS = {"quick": {"script_length": 3}, "thorough": {"script_length": 4}}
-REQUIRED = {"quick": {"scripts": 20000, "values_compared": 60000, "epochs_checked": 40000, "speculative_pairs_compared": 5000, "constraint_first_at_new_point": 3000, "gradient_first_at_new_point": 3000, "batch_requests": 1000, "batch_requests_in_reused_buffer": 600, "scripts_with_reused_point_array": 10000, "scripts_over_close_points_with_tolerance_option": 600, "real_method_runs": 36, "__nontrivial__": 150},
-            "thorough": {"scripts": 600000, "values_compared": 2000000, "epochs_checked": 1500000, "speculative_pairs_compared": 150000, "constraint_first_at_new_point": 100000, "gradient_first_at_new_point": 100000, "batch_requests": 30000, "batch_requests_in_reused_buffer": 20000, "scripts_with_reused_point_array": 300000, "scripts_over_close_points_with_tolerance_option": 15000, "real_method_runs": 600, "__nontrivial__": 1500}}
+REQUIRED = {"quick": {"scripts": 20000, "values_compared": 60000, "epochs_checked": 40000, "speculative_pairs_compared": 5000, "constraint_first_at_new_point": 3000, "gradient_first_at_new_point": 3000, "batch_requests": 1000, "batch_requests_in_reused_buffer": 600, "scripts_with_reused_point_array": 10000, "scripts_over_close_points_with_tolerance_option": 600, "scripts_over_points_with_large_coordinates_of_either_sign": 180, "real_method_runs": 36, "__nontrivial__": 150},
+            "thorough": {"scripts": 600000, "values_compared": 2000000, "epochs_checked": 1500000, "speculative_pairs_compared": 150000, "constraint_first_at_new_point": 100000, "gradient_first_at_new_point": 100000, "batch_requests": 30000, "batch_requests_in_reused_buffer": 20000, "scripts_with_reused_point_array": 300000, "scripts_over_close_points_with_tolerance_option": 15000, "scripts_over_points_with_large_coordinates_of_either_sign": 4000, "real_method_runs": 600, "__nontrivial__": 1500}}
 
 V = 2
 FAR_POOL = np.array([[0.1, -0.2], [0.35, 0.15], [-0.3, 0.4]])
 CLOSE_POOL = np.array([[0.35, 0.15], [0.35 * 1.04, 0.15 * 1.04], [0.35 * 0.97, 0.15 * 0.97]])   # far beyond rtol 1e-5, within a loose `tolerance`
+WIDE_POOL = np.array([[-3.0, 2.5], [0.8, -4.0], [-12.0, -7.0]])      # coordinates of either sign and of a magnitude beyond one
 POOL = FAR_POOL
 MAG = 0.01
 CLASSES = {
@@ -313,6 +314,9 @@ def run_case(case, obs):
             tol = float(rng.choice([1e-8, 1e-3, 0.05, 0.3]))
             POOL = CLOSE_POOL
             obs.count("scripts_over_close_points_with_tolerance_option", 40)
+        elif rng.random() < 0.5 and "lb" not in _spec(cls, cons, speculative, split):
+            POOL = WIDE_POOL
+            obs.count("scripts_over_points_with_large_coordinates_of_either_sign", 40)
         try:
             spec = _spec(cls, cons, speculative, split)
             if tol is not None:
